@@ -246,6 +246,30 @@ pub fn run(out_path: &str) {
             drop(other);
             drop(t);
         }
+        // the deprecated mutators of Arc<MaybeUninit<..>> are uniqueness gates too
+        #[allow(deprecated)]
+        for shared in [false, true] {
+            let mut h: Arc<std::mem::MaybeUninit<u32>> = Arc::new_uninit();
+            let heap = h.heap_ptr() as usize;
+            let other = if shared { Some(h.clone()) } else { None };
+            let evs = record(heap, || {
+                let _ = std::panic::catch_unwind(std::panic::AssertUnwindSafe(|| {
+                    h.write(5);
+                }));
+            });
+            entry(&mut l, "uniq:get_mut", "Arc<MaybeUninit<T>>::write (deprecated)", if shared { "shared" } else { "unique" }, evs);
+            drop(other);
+            let mut s_: Arc<[std::mem::MaybeUninit<u32>]> = Arc::new_uninit_slice(2);
+            let heap = s_.heap_ptr() as usize;
+            let other = if shared { Some(s_.clone()) } else { None };
+            let evs = record(heap, || {
+                let _ = std::panic::catch_unwind(std::panic::AssertUnwindSafe(|| {
+                    s_.as_mut_slice()[0].write(5);
+                }));
+            });
+            entry(&mut l, "uniq:get_mut", "Arc<[MaybeUninit<T>]>::as_mut_slice (deprecated)", if shared { "shared" } else { "unique" }, evs);
+            drop(other);
+        }
         // observers that read the count
         {
             let h = Arc::new(A::mk(1));
